@@ -74,7 +74,7 @@ OPS    == {"quote", "if", "progn", "let", "let*", "flet", "labels", "lambda", "c
 MACROS == {"defun", "defmacro"}
 FUNS   == {"+", "-", "*", "=", "<", ">", "<=", ">=", "not", "list", "cons", "car", "cdr", "first", "rest",
            "length", "identity", "nil?", "set", "funcall", "apply", "error", "rethrow", "probe", "boom",
-           "load-string", "in-package", "use-package", "export"}
+           "load-string", "in-package", "use-package", "export", "capture"}
 BuiltinKind(name) == IF name \in OPS THEN "op" ELSE IF name \in MACROS THEN "macro" ELSE "fun"
 BuiltinFID(v) == IF v.p = "op" THEN "<special-op ``" \o v.s \o "''>"
                  ELSE IF v.p = "macro" THEN "<builtin-macro ``" \o v.s \o "''>"
@@ -90,7 +90,7 @@ Arity(name) ==
     [] name = "set" -> <<2, -1>>
     [] name \in {"funcall", "apply", "error", "in-package"} -> <<1, -1>>
     [] name = "load-string" -> <<1, 3>>
-    [] name \in {"rethrow", "boom"} -> <<0, 0>>
+    [] name \in {"rethrow", "boom", "capture"} -> <<0, 0>>
     [] name \in {"let", "let*", "flet", "labels", "lambda", "handler-bind", "dotimes", "thread-first", "thread-last"} -> <<1, -1>>
     [] name \in {"defun", "defmacro"} -> <<2, -1>>
     [] OTHER -> <<0, -1>>
@@ -221,16 +221,28 @@ FrameName(s, f) == FunPkg(s, f) \o ":" \o FunName(s, f)
 CanNext(s) == s.ctl.mode = "next" /\ ~s.halted
 StartEval(s) ==   \* begin of a top-level evaluation (load): budget refilled, package remembered
   [s EXCEPT !.steps = 0, !.probes = <<>>, !.savedpkg = s.pkg, !.fi = 0]
-FinishEval(s, v) ==
-  LET r == [v |-> v, steps |-> s.steps, probes |-> s.probes, pkg |-> s.savedpkg,
+FinishEval(s, v0) ==
+  \* (the entry points other than load do not restore the package; a macro / operator entry point hands
+  \* back whatever marker the call produced)
+  LET v == IF v0.t \in {"macexp", "mark"} THEN VNil ELSE v0
+      endpkg == IF s.savedpkg = "*" THEN s.pkg ELSE s.savedpkg IN
+  LET r == [v |-> v, steps |-> s.steps, probes |-> s.probes, pkg |-> endpkg,
             frames |-> Len(s.frames), conds |-> Len(s.conds), k |-> Len(s.k)] IN
-  [s EXCEPT !.results = Append(@, r), !.pkg = s.savedpkg, !.evi = @ + 1, !.fi = 0, !.ctl = [mode |-> "next"], !.k = <<>>]
+  [s EXCEPT !.results = Append(@, r), !.pkg = endpkg, !.evi = @ + 1, !.fi = 0, !.ctl = [mode |-> "next"], !.k = <<>>]
 NextForm(s) ==
   IF s.evi > Len(s.prog.evals) THEN [s EXCEPT !.halted = TRUE] ELSE
   LET forms == s.prog.evals[s.evi] IN
   LET s0 == IF s.fi = 0 THEN StartEval(s) ELSE s IN
   IF s0.fi = Len(forms)
   THEN FinishEval(s0, IF s0.fi = 0 THEN VNil ELSE s0.last)
+  ELSE IF s.prog.modes[s.evi] = "call"
+  THEN \* FunCall / MacroCall / SpecialOpCall entry points: the head is resolved (GetFun) in the root
+       \* environment and invoked with the arguments as written; no package save/restore, no load
+       LET form == forms[1]  r == SymValue(s0, form.c[1], 1) IN
+       IF ~r.ok \/ ~IsFun(r.v)
+       THEN [Fail(s0, 1) EXCEPT !.fi = 1, !.k = << [t |-> "top"] >>, !.savedpkg = "*"]
+       ELSE [s0 EXCEPT !.fi = 1, !.k = << [t |-> "top"] >>, !.savedpkg = "*",
+                       !.ctl = [mode |-> "dispatch", f |-> NameFun(r.v, form.c[1]), args |-> Rest(form.c), env |-> 1]]
   ELSE [s0 EXCEPT !.fi = @ + 1, !.k = << [t |-> "top"] >>, !.ctl = Eval(forms[s0.fi + 1], 1)]
 
 \* -------------------------------------------------------------------- eval
@@ -437,6 +449,11 @@ DoCall(s) ==
   CASE f.s = "probe" ->
          [s EXCEPT !.probes = Append(@, [tag |-> args, frames |-> FrameView(Pop(s.frames)), steps |-> s.steps,
                                          nest |-> Nest(s), pkg |-> s.pkg]),
+                   !.ctl = Ret(VNil)]
+    [] f.s = "capture" ->
+         \* host builtin: identity (error id) of the condition being handled, 0 when none
+         [s EXCEPT !.probes = Append(@, [tag |-> <<VQSym("capture"), VInt(IF Len(s.conds) = 0 THEN 0 ELSE Top(s.conds).n)>>,
+                                         frames |-> FrameView(Pop(s.frames)), steps |-> s.steps, nest |-> Nest(s), pkg |-> s.pkg]),
                    !.ctl = Ret(VNil)]
     [] f.s = "boom" ->
          \* a Go panic in a host builtin: recovered by the innermost active eval; every activation
